@@ -97,6 +97,20 @@ func (c *Ctx) expandFact(pk *pkgT) func(cf *cfgx.Func, fa cfgx.Fact) []cfgx.Fact
 				}
 			}
 		}
+		// what the helper returns next to its verdict is what the caller's variables hold:
+		// `name, macro, je := h(x)` - a local of h that every success return hands out as
+		// result i is the caller's i-th left-hand side
+		if lhs := c.callLHS(info, cf, fa, call); lhs != nil {
+			for i, o := range c.resultObjs(hpk, fd, kind) {
+				if o != nil && i < len(lhs) {
+					if id, ok := lhs[i].(*ast.Ident); ok && id.Name != "_" {
+						if _, taken := sub[o]; !taken {
+							sub[o] = id
+						}
+					}
+				}
+			}
+		}
 		var out []cfgx.Fact
 		for _, hf := range facts {
 			if e := substToCaller(hf.Expr, sub, hpk.TypesInfo, info, cfh.DefOf); e != nil {
@@ -427,4 +441,66 @@ func substToCaller(e ast.Expr, sub map[types.Object]ast.Expr, from, to *types.In
 		return nil
 	}
 	return walk(e, 0)
+}
+
+// callLHS: the left-hand sides of the assignment whose right-hand side is this call.
+func (c *Ctx) callLHS(info *types.Info, cf *cfgx.Func, fa cfgx.Fact, call *ast.CallExpr) []ast.Expr {
+	var out []ast.Expr
+	ast.Inspect(cf.Body, func(n ast.Node) bool {
+		as, ok := n.(*ast.AssignStmt)
+		if ok && len(as.Rhs) == 1 && ast.Unparen(as.Rhs[0]) == ast.Expr(call) {
+			out = as.Lhs
+		}
+		return true
+	})
+	return out
+}
+
+// resultObjs: for each result position, the helper's local variable that every return of
+// the given kind hands out there (nil when they differ or it is not a plain variable).
+func (c *Ctx) resultObjs(hpk *pkgT, fd *ast.FuncDecl, kind retKind) []types.Object {
+	info := hpk.TypesInfo
+	var out []types.Object
+	first := true
+	inspectNoLit(fd.Body, func(n ast.Node) bool {
+		ret, ok := n.(*ast.ReturnStmt)
+		if !ok || len(ret.Results) == 0 {
+			return true
+		}
+		last := ret.Results[len(ret.Results)-1]
+		tv, has := info.Types[last]
+		switch kind {
+		case retSuccess:
+			if !has || !tv.IsNil() {
+				return true
+			}
+		case retTrue:
+			if has && tv.Value != nil && tv.Value.String() != "true" {
+				return true
+			}
+		case retFalse:
+			if has && tv.Value != nil && tv.Value.String() != "false" {
+				return true
+			}
+		}
+		cur := make([]types.Object, len(ret.Results))
+		for i, r := range ret.Results {
+			if id, ok := ast.Unparen(r).(*ast.Ident); ok {
+				if v, isVar := info.ObjectOf(id).(*types.Var); isVar && !v.IsField() {
+					cur[i] = v
+				}
+			}
+		}
+		if first {
+			out, first = cur, false
+			return true
+		}
+		for i := range out {
+			if i >= len(cur) || cur[i] != out[i] {
+				out[i] = nil
+			}
+		}
+		return true
+	})
+	return out
 }
